@@ -952,7 +952,7 @@ func (r *Rig) quietNow(requireCtx bool) string {
 	return ""
 }
 
-const idleLimit = 1500 * time.Millisecond
+const idleLimit = 750 * time.Millisecond
 
 // waitQuiet polls until the conditions hold. The verdict does not depend on the wall clock: the
 // watchdog only fires after the logical clock (which every writer call, hook, reporter call and
@@ -1019,7 +1019,7 @@ func (r *Rig) Finish(clientDriven bool, cleanup bool) Quiet {
 	idle := idleLimit
 	if q.PreTrig >= 0 && !q.PreSettled && !q.PreBusy {
 		// the history was already idle in a bad state before the shutdown: do not wait that long again
-		idle = 300 * time.Millisecond
+		idle = 200 * time.Millisecond
 	}
 	ok, busy, pending := r.waitQuiet(cleanup, 20*time.Second, idle)
 	q.Settled, q.StillBusy, q.Pending = ok, busy, pending
